@@ -60,6 +60,12 @@ Theorem C02_conserved :
     reported_total codes tick ops c <= enabled_time codes tick t0 ops.
 Proof. exact reported_times_sum_le_enabled. Qed.
 
+Theorem C02_conserved_nonvacuous :
+  no_collision leaky_codes nv_ops = true /\ single_threadb 0 nv_ops = true
+  /\ reported_total leaky_codes 1 nv_ops 0 = 10 /\ enabled_time leaky_codes 1 0 nv_ops = 22
+  /\ anow (a_run leaky_codes 1 0 nv_ops) = 1022.
+Proof. exact conserved_nonvacuous. Qed.
+
 (* ... and enabled time is part of the elapsed time (the earlier, weaker bound follows) *)
 Theorem C02_enabled_within_elapsed :
   forall codes tick t0 ops,
